@@ -97,6 +97,8 @@ pub fn run(name: &str, a: &Args) -> Option<String> {
                 Err(_) => "E9".to_string(),
             }
         }
+        "p_reject" => perr(hifitime::Epoch::from_str(&s_of(a.l(0))).map(|e| format!("1 {}", crate::epoch::pep(e)))),
+        "p_reject_fmt" => perr(hifitime::Epoch::from_format_str(&s_of(a.l(1)), &s_of(a.l(0))).map(|e| format!("1 {}", crate::epoch::pep(e)))),
         "p_dur_v" => perr(hifitime::Duration::from_str(&s_of(a.l(0))).map(|d| format!("1 {}", d.total_nanoseconds()))),
         "p_num" => {
             let form = match a.z(0) { 1 => "JD", 2 => "MJD", _ => "SEC" };
